@@ -6,7 +6,10 @@ sequence counter as the plugin-side log.  The oracle reads the workflow the way 
 
   enabled   the value of `enabled` under the bool schema's reading (false / "no" / 0 / off ... all mean false): plugin code
             runs only if that reading is true (or there is no `enabled` key); a step whose reading is false and that was
-            neither stopped nor closed reports disabled.output
+            neither stopped nor closed reports disabled.output.  (Since /repo d308cbb the providers read the value through
+            the bool schema themselves, so a literal that reads true runs the step; a step that reports disabled although
+            its value reads true is recorded as the candidate observation `enabled-reads-true-but-step-disabled` - it does
+            not contradict C04, which only restricts execution.)
   stop      a stop condition fired before the step started => the step never starts.  "Before" is decided on sequence
             numbers (the provider had RETURNED from processing the firing stop input before the step ANNOUNCED its starting
             stage); pairs closer than MARGIN_SEQ_US are counted as undecided, never as violations (on the unchanged engine the
@@ -404,6 +407,9 @@ def S_c04():
 def mon_gate(case, verdict, chk):
     """property-level reading of one provider script (independent of the model): the plugin code may run only if the
     accepted enabling input carried nil or a value the bool schema reads as true"""
+    if case.get("kind") == "boolread":
+        hist(chk, "gate:boolread:%s" % ("rejected" if not case.get("ok") else str(case.get("value")).lower()))
+        return
     acts = case.get("case", {}).get("actions", [])
     calls = case.get("calls", [])
     executed = "exec-start" in (case.get("plugin_log") or [])
@@ -431,10 +437,12 @@ def S_gate():
 # ---- registry ---------------------------------------------------------------------------------------------------------------------
 
 GATE_THEOREMS = [
-    "Arca.Props.C04.decisions_recognised", "Arca.Props.C04.enabled_iff_nil_or_true", "Arca.Props.C04.foreach_enabled_iff_nil_or_true",
-    "Arca.Props.C04.false_reading_never_enables", "Arca.Props.C04.unreadable_never_enables",
-    "Arca.Props.C04.stop_iff_present_and_not_false", "Arca.Props.C04.true_reading_stop_fires",
-    "Arca.Props.C04.reads_true_yet_disabled_counterexample", "Arca.Props.C04.reads_false_yet_stopped_counterexample",
+    "Arca.Props.C04.decisions_recognised", "Arca.Props.C04.foreach_decides_like_plugin",
+    "Arca.Props.C04.enabled_iff_nil_or_reads_true", "Arca.Props.C04.foreach_enabled_iff_nil_or_reads_true",
+    "Arca.Props.C04.refused_iff_unreadable", "Arca.Props.C04.false_reading_never_enables", "Arca.Props.C04.true_reading_enables",
+    "Arca.Props.C04.unreadable_is_refused",
+    "Arca.Props.C04.stop_iff_present_and_not_false", "Arca.Props.C04.true_reading_stop_fires", "Arca.Props.C04.stop_input_accepted_once",
+    "Arca.Props.C04.old_decision_reads_true_yet_disabled", "Arca.Props.C04.reads_false_yet_stopped_counterexample",
     "Arca.Props.C04.executes_only_if_enabled", "Arca.Props.C04.false_reading_never_executes", "Arca.Props.C04.disabled_reports_disabled",
     "Arca.Props.C04.stop_before_start_partial", "Arca.Props.C04.stop_before_start_partial_any",
     "Arca.Props.C04.stop_before_start_counterexample",
@@ -466,5 +474,7 @@ def extend(spec):
         "; c04-gates: whole-engine runs with recording proxies around the real providers, classes spell (literal enabled/stop_if in "
         "every spelling of the bool schema) / order (stop_if + enabled + wait_for + deployment delay, sources at 0/500/1000 ms) / "
         "prereq (failing, disabled, stopped prerequisites; wait_for on every stage output); gate: the real plugin provider driven with "
-        "raw non-bool enabled/stop_if values against Arca.Model.Gate (non-trivial = a non-bool value was fed)")
+        "raw non-bool enabled/stop_if values (and repeated stop inputs) against Arca.Model.Gate (non-trivial = a non-bool value was fed), "
+        "preceded by the boolread lines: every generated spelling through the real schema.NewBoolSchema().Unserialize against "
+        "Arca.Model.boolRead")
     return out
